@@ -146,4 +146,11 @@ PROPS["C15"] = {
         SAN("transforms", "c18_transforms.cpp", [], 10, 100),
     ],
 }
+PROPS["C20"] = {
+    "heap": True, "engine": "mcx-heap",
+    "rule": "each case is executed under four heap schedules: ascending / descending addresses x {no reuse, LIFO or FIFO reuse with unrelated allocations interleaved and a 0xA5 fill}; results must be bit-identical (VPSC positions, removeoverlaps rectangles, polyline and orthogonal routes, pin assignment) or equal to 1e-9 (libcola and HOLA positions). VPSC problems are additionally shifted by 2^-10, 1025*2^-10 and -3072 and mirrored; routing scenes are translated by (2^-10,0), (1025*2^-10,-3), (-3072,4096.5) (routes must translate exactly) and put through the seven non-trivial symmetries of the square (costs equal to 1e-9); removeoverlaps inputs are translated. Alphabets: VPSC n<=3 m<=2(3); removeoverlaps n<=3 on grid 3; routing G=3/4 with <=2 shapes; two-shape pin scenes; libcola n=3 with constraints; HOLA all labelled connected graphs n<=4(5). Independence of variable/constraint ids and order is decided under C02. Non-trivial = every case (each is a comparison of several executions).",
+    "bounds": {"quick": "VPSC n<=3 m<=2; removeoverlaps (3,3); routing G=3 two shapes (polyline), G=4 two rects (orthogonal); HOLA n<=4", "thorough": "VPSC m<=3; removeoverlaps (4,2); polyline G=4; HOLA n=5; every cola placement"},
+    "assumptions": ["heap nondeterminism is owned by replacing global operator new/delete (mcx/arena.h); two runs under the same schedule are bit-identical (checked by the harness design, see DESIGN.md)"],
+    "parts": [{"name": "determinism", "src": "c20_determinism.cpp", "quick": T(150, 60, [], 100), "thorough": T(1700, 120, [], 100)}],
+}
 NOT_APPLICABLE = {}
